@@ -165,6 +165,27 @@ func (w *Rewriter) Rewrite(name string, b []byte, depth int) []byte {
 			continue
 		}
 		sh := w.F.ShapeOf(fd)
+		// an earlier, overwritten occurrence of a singular scalar field (last one wins): same wire type,
+		// different content and (for bytes/string) different length
+		if !sh.Repeated && (sh.Cat == "scalar" || sh.Cat == "enum") && fd.Oneof == "" && r.Intn(5) == 0 {
+			dup := rec
+			switch rec.Typ {
+			case protowire.VarintType:
+				dup.Val = protowire.AppendVarint(nil, r.Uint64()>>uint(r.Intn(64)))
+			case protowire.Fixed32Type:
+				dup.Val = protowire.AppendFixed32(nil, r.Uint32())
+			case protowire.Fixed64Type:
+				dup.Val = protowire.AppendFixed64(nil, r.Uint64())
+			case protowire.BytesType:
+				n := []int{0, 1, 2, 3, 5, 8, 13, 40}[r.Intn(8)]
+				p := make([]byte, n)
+				for i := range p {
+					p[i] = byte('a' + r.Intn(26))
+				}
+				dup.Val = protowire.AppendBytes(nil, p)
+			}
+			out = append(out, dup)
+		}
 		switch {
 		case rec.Typ == protowire.VarintType:
 			if r.Intn(4) == 0 {
